@@ -791,7 +791,7 @@ package util
 //@ pred ChangesWF(cc *ChangeCollector) = forall k string :: k in cc.Changes ==> cc.Changes[k] != nil && cc.Changes[k].New != nil
 
 //@ func (*ChangeCollector).AddChange
-//@   props C04 C05
+//@   props C04 C05 C03
 //@   mode wrap
 //@   requires newNode != nil && cc.Changes != nil && cc.Deletes != nil && ChangesWF(cc)
 //@   assigns mapof(cc.Changes), mapof(cc.Deletes), heap(NodeChange.New)
@@ -811,7 +811,7 @@ package util
 //@   ensures old(DisjCD(cc)) && (oldNode == nil || NodeHash(oldNode, heapof(OriginTracker.Origin)) != NodeHash(newNode, heapof(OriginTracker.Origin))) ==> DisjCD(cc)      #changes-and-deletes-stay-disjoint
 
 //@ func (*ChangeCollector).DeleteChange
-//@   props C04 C05
+//@   props C04 C05 C03
 //@   mode wrap
 //@   requires oldNode != nil && cc.Changes != nil && cc.Deletes != nil
 //@   assigns mapof(cc.Changes), mapof(cc.Deletes)
@@ -851,7 +851,7 @@ package util
 //@   holds mpt.mutex W
 //@   requires mpt != nil && node != nil && Canon(node) && PathsWF(node) && CollectorWF(mpt) && str(key) == NodeHB(node, heapof(OriginTracker.Origin))
 //@   ensures err == nil ==> NodeHB(node, heapof(OriginTracker.Origin)) == str(key)                                      #donor-node-keeps-its-key
-//@   ensures heapof(OriginTracker.Origin) == old(heapof(OriginTracker.Origin))                                          #donor-node-is-not-modified
+//@   ensures heapof(OriginTracker.Origin) == old(heapof(OriginTracker.Origin)) && heapof(OriginTracker.Version) == old(heapof(OriginTracker.Version))      #donor-node-is-not-modified
 
 // ================= C14: stores keep a node under the key it is handed with, and that key is the node's hash =================
 //
